@@ -11,11 +11,18 @@ def cfg(d, l, m, ops, hist):
                                             "INVARIANT Emit" if hist else "INVARIANT TypeOK\nPROPERTY DetachedSilent\nPROPERTY OnceHasWitness"))
 
 
+def ccfg(two, ops, hist):
+    return ("CONSTANTS\n M1 <- M1s\n M2 <- M2s\n Leaves <- Ls\n TwoLeaves = %s\n MaxOps = %d\n RecordHist = %s\nINIT Init\nNEXT Next\n"
+            "CHECK_DEADLOCK FALSE\n%s\n" % ("TRUE" if two else "FALSE", ops, "TRUE" if hist else "FALSE",
+                                            "INVARIANT Emit" if hist else "INVARIANT TypeOK\nPROPERTY DetachedSilent"))
+
+
 def run(prop, tier, seed):
     t0 = time.time()
     quick = tier == "quick"
     M = "MC_DependsPath.tla"
-    props = [{"module": M, "cfg": "C07_p.cfg", "extra_defs": {"C07_p.cfg": cfg("DAll", "L2", "M2", 3 if quick else 4, False)}}]
+    props = [{"module": "MC_DependsChain.tla", "cfg": "C07_pc.cfg", "extra_defs": {"C07_pc.cfg": ccfg(True, 2 if quick else 3, False)}},
+             {"module": M, "cfg": "C07_p.cfg", "extra_defs": {"C07_p.cfg": cfg("DAll", "L2", "M2", 3 if quick else 4, False)}}]
     gens = [{"module": M, "cfg": "C07_g.cfg", "workers": 8, "extra_defs": {"C07_g.cfg": cfg("DAll", "L2", "M2", 2 if quick else 3, True)}},
             {"module": M, "cfg": "C07_s.cfg", "workers": 8, "simulate": 400 if quick else 20000, "depth": 10, "seed": seed,
              "extra_defs": {"C07_s.cfg": cfg("DAll", "L3", "M2", 8, True)}}]
@@ -24,8 +31,14 @@ def run(prop, tier, seed):
         th = threading.Thread(target=lambda: box.setdefault("st", pipeline.tlc_prop_stage(props, scratch, 2400)))
         th.start()
         rst = pipeline.replay_stage(gens, "dependspath", {"tolerate": [e["tag"] for e in core.KnownFindings(prop).open]}, scratch, 2400)
+        cg = []
+        for two in (False, True):
+            n = "C07_c%d.cfg" % two
+            cg.append({"module": "MC_DependsChain.tla", "cfg": n, "workers": 8, "simulate": 250 if quick else 10000, "depth": 8, "seed": seed,
+                       "extra_defs": {n: ccfg(two, 6, True)}})
+        cst = pipeline.replay_stage(cg, "dependschain", {}, scratch, 1200, name="replay_depth3")
         th.join()
-    return pipeline.finish(prop, tier, seed, t0, [box["st"], rst],
+    return pipeline.finish(prop, tier, seed, t0, [box["st"], rst, cst],
                            rule="non-trivial: at least one step of the history must invoke the dependent method (the value reached through a current path changed)",
                            assumptions=["dependency sets: a.x; a.x+a.y; a.param; a.x+c.x; a.b.x; a.b.x+a.b.y; a.b.x+c.x; 2-3 leaf objects, 2 intermediate objects, all initial attachments",
                                         "when a path starts or stops resolving, or is rearranged while not resolving, the property makes no claim (any number of invocations is accepted)",
